@@ -1,6 +1,32 @@
 package c01
 
-import "time"
+import (
+	"encoding/json"
+	"syscall"
+	"time"
+
+	"github.com/evanw/esbuild/verif/vdrv"
+)
 
 func timeNow() time.Time                  { return time.Now() }
 func timeSince(t time.Time) time.Duration { return time.Since(t) }
+
+func vdrvLoad(path string) (JSXCase, error) {
+	var c JSXCase
+	r, err := vdrv.LoadReplay(path)
+	if err != nil {
+		return c, err
+	}
+	err = json.Unmarshal(r.Case, &c)
+	return c, err
+}
+
+func cpuTimes() (self, children time.Duration) {
+	var a, b syscall.Rusage
+	syscall.Getrusage(syscall.RUSAGE_SELF, &a)
+	syscall.Getrusage(syscall.RUSAGE_CHILDREN, &b)
+	d := func(r syscall.Rusage) time.Duration {
+		return time.Duration(r.Utime.Nano() + r.Stime.Nano())
+	}
+	return d(a), d(b)
+}
